@@ -38,6 +38,14 @@ var c18Programs = []string{
 	"case x in a) foo; ;; b) bar ;; esac\n", "case x in a) foo; ;; b) bar; ;; c) baz & ;; esac\n", "case x in (a) b; c; ;; d) ;; e) f; ;; esac\n",
 	"if a; then b; fi; while c; do d; done\n", "if a; b; then c; fi\n", "while a; b; do c; done\n", "until a; do b; c; done\n", "for x in a; do b; c; done\n",
 	"if a; then b; elif c; d; then e; else f; fi\n", "{ a; b; }; ( c; d )\n", "a; b; c\n", "a & b & c &\n",
+	// a one-line subshell / substitution whose first thing is a subshell, in every position of the list grammar
+	"( (a) | b )\n", "$( (a) | b )\n", "( (a) && b )\n", "( ! (a) )\n", "( (a) >f )\n", "( (a) & )\n", "( { (a); } )\n", "( (a) | (b) )\n", "a $( (b) || c ) d\n", "( ( (a) ) | b )\n",
+	// an arithmetic command, then nested subshells whose closing parentheses meet in the printed form
+	"((x)); ( (a) )\n", "(( x )) && ( a | (b) )\n", "if ((x)); then ( (a) ); fi\n", "((1)); ( b; (a) )\n", "((1))\n( (a) )\n", "while ((x)); do ( (a) ); done\n", "f() { ((x)); ( (a) ); }\n",
+	// for without a word list, with a here-document pending from the pipeline
+	"cat <<E | for x do a; done\nb\nE\n", "cat <<E | for x\ndo a; done\nb\nE\n", "cat <<E | for x; do\nb\nE\n a\ndone\n",
+	// if/elif chains whose conditions all end in ';'
+	"if a; then\n b\nelif c; then\n d\nelif e; then\n f\nfi\n", "if a; b; then\n c\nelif d; then\n e\nfi\n",
 }
 
 func init() {
